@@ -284,6 +284,10 @@ type Typedef struct {
 	Units       *Value `yang:"units"`
 
 	YangType *YangType `json:"-"`
+
+	// resolving is set while resolve is working on this typedef, so that a
+	// typedef whose type leads back to itself is detected.
+	resolving bool
 }
 
 func (Typedef) Kind() string             { return "typedef" }
